@@ -259,6 +259,8 @@ def as_cell(interp, value, node):
         return Cell(NUM, value.elem)
     if isinstance(value, float) and value != value:
         return NAN_CELL
+    if isinstance(value, float) and value in (float("inf"), float("-inf")):
+        return Cell(PINF if value > 0 else NINF, None)
     if isinstance(value, libmodels.SLib) and value.dotted.endswith(".nan"):
         return NAN_CELL
     if isinstance(value, str):
@@ -336,12 +338,19 @@ class RIndex:
     def __init__(self, frame):
         self.frame = frame
 
+    def sym_getitem(self, interp, key, node):
+        if isinstance(key, RMask):
+            return RIndex(self.frame.derive(mult=_ite(key.cond, self.frame.mult, 0), note=f"filter[{key.note}]"))
+        raise Unsupported("index subscript other than a boolean mask", node)
+
     def sym_getattr(self, interp, name, node):
         u = self.frame.universe
         if name == "month":
             return RSeries(self.frame, Cell(NUM, u["month"]), "index.month")
         if name == "dayofweek":
             return RSeries(self.frame, Cell(NUM, u["dow"]), "index.dayofweek")
+        if name == "hour" and "hour" in u:
+            return RSeries(self.frame, Cell(NUM, u["hour"]), "index.hour")
         if name == "isin":
             def isin(other):
                 if isinstance(other, RIndex):
@@ -375,7 +384,18 @@ class RSeries:
         if name in ("notna", "notnull"):
             return _Callable(lambda *a, **k: RMask(self.frame, _not(c.is_nan()), f"{self.name}.notna()"))
         if name == "astype":
-            return _Callable(lambda *a, **k: self)
+            def astype(*a, **k):
+                if is_z3(c.val) and z3.is_bool(c.val):
+                    return RSeries(self.frame, Cell(c.kind, z3.If(c.val, 1, 0)), self.name)
+                return self
+            return _Callable(astype)
+        if name == "reindex":
+            def reindex(idx, *a, fill_value=None, **k):
+                if not isinstance(idx, RIndex):
+                    raise Unsupported("reindex to a non-index", node)
+                fill = as_cell(interp, fill_value, node) if fill_value is not None else NAN_CELL
+                return RSeries(idx.frame, cell_ite(self.frame.member(), c, fill), self.name)
+            return _Callable(reindex)
         if name == "values":
             return SVec(c.val, label=self.name)
         if name == "isin":
@@ -398,6 +418,12 @@ class RSeries:
             return _Callable(isin)
         if name == "map":
             def map_(d):
+                from .values import SFunc
+                if isinstance(d, SFunc):
+                    v = interp.call_function(d, [c.val], {}, node)
+                    if isinstance(v, bool):
+                        v = z3.BoolVal(v)
+                    return RSeries(self.frame, Cell(c.kind, to_z3(v) if (is_num(v) or is_z3(v)) else v), f"{self.name}.map")
                 if not isinstance(d, dict):
                     raise Unsupported("Series.map of a non-dict", node)
                 kind, val = NAN, None
@@ -421,7 +447,38 @@ class RSeries:
             return self.name
         raise Unsupported(f"Series.{name} (row-wise model)", node)
 
+    def sym_compare(self, interp, op, l, r, node):
+        ser, other, flip = (l, r, False) if isinstance(l, RSeries) else (r, l, True)
+        c = ser.cell
+        ops = {ast.Lt: ast.Gt, ast.Gt: ast.Lt, ast.LtE: ast.GtE, ast.GtE: ast.LtE}
+        if flip and type(op) in ops:
+            op = ops[type(op)]()
+        if isinstance(other, float) and other in (float("inf"), float("-inf")):
+            pos = other > 0
+            if isinstance(op, (ast.Gt, ast.GtE)):
+                res = False if pos else c.is_num()
+            elif isinstance(op, (ast.Lt, ast.LtE)):
+                res = c.is_num() if pos else False
+            else:
+                res = isinstance(op, ast.NotEq)
+            return RMask(ser.frame, res, f"{ser.name} cmp {other}")
+        if isinstance(other, RSeries):
+            raise Unsupported("comparison of two series (row-wise model)", node)
+        # comparisons with NaN / inf cells are False (NaN) -- only ordinary numbers compare
+        v = interp.compare(op, c.val, other, node)
+        return RMask(ser.frame, _and(c.is_num(), v), f"{ser.name} cmp")
+
+    def sym_getitem(self, interp, key, node):
+        if isinstance(key, RMask):
+            f = self.frame.derive(mult=_ite(key.cond, self.frame.mult, 0), note=f"filter[{key.note}]")
+            return RSeries(f, self.cell, self.name)
+        raise Unsupported("series subscript other than a boolean mask", node)
+
     def sym_binop(self, interp, op, l, r, node):
+        if isinstance(l, RSeries) and isinstance(r, RSeries):
+            both = _and(l.cell.is_num(), r.cell.is_num())
+            val = interp.binop(op, l.cell.val if l.cell.val is not None else 0, r.cell.val if r.cell.val is not None else 0, node)
+            return RSeries(l.frame, Cell(_ite(both, NUM, NAN), val), l.name)
         if isinstance(l, RSeries) and (is_num(r) or is_z3(r)):
             return RSeries(self.frame, Cell(l.cell.kind, interp.binop(op, l.cell.val, r, node)), self.name)
         if isinstance(r, RSeries) and (is_num(l) or is_z3(l)):
@@ -571,9 +628,24 @@ def pd_concat(interp, args, kwargs, node, frame):
     return NotImplemented
 
 
+def pd_series(interp, args, kwargs, node, frame):
+    data = kwargs.get("data", args[0] if args else None)
+    index = kwargs.get("index")
+    if isinstance(index, RIndex):
+        use(interp, "pd.rowwise")
+        return RSeries(index.frame, as_cell(interp, data, node), kwargs.get("name"))
+    return NotImplemented
+
+
 def pd_dataframe(interp, args, kwargs, node, frame):
     data = kwargs.get("data", args[0] if args else None)
     index = kwargs.get("index")
+    if isinstance(data, dict) and data and all(isinstance(v, RSeries) for v in data.values()) and (index is None or isinstance(index, RIndex)):
+        use(interp, "pd.rowwise")
+        base = index.frame if index is not None else next(iter(data.values())).frame
+        order = kwargs.get("columns") or list(data)
+        cells = OrderedDict((k, data[k].cell if k in data else NAN_CELL) for k in order)
+        return RFrame(base.mult, cells, base.universe, base.sorted, base.index_tag)
     if isinstance(data, dict) and isinstance(index, RIndex):
         use(interp, "pd.rowwise")
         cells = OrderedDict((k, as_cell(interp, v, node)) for k, v in data.items())
@@ -589,7 +661,7 @@ def np_isfinite(interp, args, kwargs, node, frame):
 
 
 def install():
-    for name, f in (("pandas.concat", pd_concat), ("pandas.DataFrame", pd_dataframe), ("numpy.isfinite", np_isfinite),
+    for name, f in (("pandas.concat", pd_concat), ("pandas.DataFrame", pd_dataframe), ("pandas.Series", pd_series), ("numpy.isfinite", np_isfinite),
                     ("numpy.sqrt", np_unary("sqrt")), ("numpy.square", np_unary("square")), ("numpy.abs", np_unary("abs"))):
         prev = libmodels.LIB.get(name)
 
@@ -612,14 +684,15 @@ def install():
         run = interp.run
         month = run.input("row.month", z3.IntSort())
         dow = run.input("row.dayofweek", z3.IntSort())
-        run._add(z3.And(month >= 1, month <= 12, dow >= 0, dow <= 6))
+        hour = run.input("row.hour", z3.IntSort())
+        run._add(z3.And(month >= 1, month <= 12, dow >= 0, dow <= 6, hour >= 0, hour <= 23))
         cells = OrderedDict()
         for c in cols:
             k = run.input(f"row.{c}.kind", z3.IntSort())
             v = run.input(f"row.{c}", z3.RealSort())
             run._add(z3.And(k >= 0, k <= 3))
             cells[c] = Cell(k, v)
-        return RFrame(z3.IntVal(1), cells, {"month": month, "dow": dow}, False, "local", label=kwargs.get("label", "input"))
+        return RFrame(z3.IntVal(1), cells, {"month": month, "dow": dow, "hour": hour}, False, "local", label=kwargs.get("label", "input"))
 
     @libmodels.api("cell_kind")
     def _cell_kind(interp, args, kwargs, node, frame):
